@@ -1897,6 +1897,10 @@ class BootstrapElectionModel(BaseElectionModel):
             potential_losses = pred_states - (~lower_states).astype(int)
             potential_gains = upper_states.astype(int) - pred_states
 
+        # a contest can be lost only if it is predicted to be won and gained only if it is predicted to be lost
+        potential_losses = np.clip(potential_losses, 0, None)
+        potential_gains = np.clip(potential_gains, 0, None)
+
         if self.called_contests is not None:
             # if there is a call, there is no uncertainty in the outcome
             potential_losses[~np.isclose(self.called_contests.flatten(), -1)] = 0
